@@ -167,7 +167,11 @@ func LongStr(t *rapid.T, label string, maxLen int) string {
 	mode := rapid.IntRange(0, 29).Draw(t, label+"/mode")
 	switch {
 	case mode == 0:
-		n := rapid.IntRange(65536, maxLen).Draw(t, label+"/len")
+		lo := 65536
+		if maxLen < lo {
+			lo = maxLen / 2
+		}
+		n := rapid.IntRange(lo, maxLen).Draw(t, label+"/len")
 		return string(expand(rapid.IntRange(0, 2).Draw(t, label+"/class"), rapid.Uint64().Draw(t, label+"/seed"), n))
 	case mode < 4:
 		n := rapid.IntRange(100, 5000).Draw(t, label+"/len")
